@@ -14,8 +14,10 @@ oracle:  result in {prepared, PermFail, Retry} and never raised; a spec jsonsche
 from __future__ import annotations
 
 import copy
+import gc
 import json
 import subprocess
+import sys
 import time
 
 import common
@@ -28,6 +30,71 @@ KINDS = ["ValueFunction", "ResourceFunction", "ResourceTemplate", "Workflow", "F
 CRD_FILES = {"ValueFunction": "value-function.yaml", "ResourceFunction": "resource-function.yaml",
              "ResourceTemplate": "resource-template.yaml", "Workflow": "workflow.yaml",
              "FunctionTest": "function-test.yaml"}
+
+# --------------------------------------------------------------------------- very large integers
+# CPython refuses int <-> decimal str beyond 4300 digits (that refusal is one of the things under test), so
+# the harness itself never prints such a number: replay / corpus files carry {"$bigint": "<hex>"} (hex is exempt)
+# and the side process gets its input with the limit lifted for the duration of one json.dumps.
+
+BIG = 10 ** 5000
+
+
+def dumps_big(v, **kw) -> str:
+    old = sys.get_int_max_str_digits()
+    sys.set_int_max_str_digits(0)
+    try:
+        return json.dumps(v, **kw)
+    finally:
+        sys.set_int_max_str_digits(old)
+
+
+def encode_case(v):
+    """JSON-safe copy: huge ints become {"$bigint": hex}"""
+    if isinstance(v, bool) or v is None or isinstance(v, (str, float)):
+        return v
+    if isinstance(v, int):
+        return {"$bigint": hex(v)} if abs(v) >= 10 ** 4000 else v
+    if isinstance(v, dict):
+        return {k: encode_case(x) for k, x in v.items()}
+    if isinstance(v, (list, tuple)):
+        return [encode_case(x) for x in v]
+    return v
+
+
+def decode_case(v):
+    if isinstance(v, dict):
+        if set(v) == {"$bigint"}:
+            return int(v["$bigint"], 16)
+        return {k: decode_case(x) for k, x in v.items()}
+    if isinstance(v, list):
+        return [decode_case(x) for x in v]
+    return v
+
+
+# --------------------------------------------------------------------------- kr8s' class registry
+# kr8s.objects.get_class walks every APIObject subclass ever created in the process: a class registered by one
+# case must not influence an unrelated later case.
+
+def registry_poison():
+    """registered classes on which `get_class`'s `cls_group, cls_version = cls.version.split("/")` fails"""
+    from kr8s._objects import APIObject
+
+    out, todo = [], [APIObject]
+    while todo:
+        c = todo.pop()
+        todo.extend(c.__subclasses__())
+        v = getattr(c, "version", None)
+        if isinstance(v, str) and v.count("/") > 1:
+            out.append(c)
+    return out
+
+
+def registry_cleanup():
+    """forget what a case registered (prepared functions are dropped with the cache; anything still alive and
+    poisonous is neutralised)"""
+    for c in registry_poison():
+        c.version = "neutralised/v0"
+
 
 # --------------------------------------------------------------------------- instrumentation
 
@@ -87,8 +154,17 @@ def preparer(kind):
 _serial = [0]
 
 
-def impl_prepare(kind: str, spec, via_cache: bool = False) -> dict:
-    """{"r": prepared|permFail|retry|skip|depSkip|raised, "compile": n, "lookup": m, "msg": …}"""
+def impl_prepare(kind: str, spec, via_cache: bool = False, isolate: bool = True) -> dict:
+    """{"r": prepared|permFail|retry|skip|depSkip|raised, "compile": n, "lookup": m, "msg": …}
+    `isolate`: clean kr8s' class registry afterwards (off inside a sequence case)"""
+    try:
+        return _impl_prepare(kind, spec, via_cache)
+    finally:
+        if isolate and kind == "ResourceFunction":
+            registry_cleanup()
+
+
+def _impl_prepare(kind: str, spec, via_cache: bool = False) -> dict:
     import koreo_util as ku
     from koreo import cache
 
@@ -329,7 +405,15 @@ def _expression_batch(ck: Check, drv: LeanDriver, sources, slots, r, serial: int
 # --------------------------------------------------------------------------- spec stream
 
 JUNK = [None, True, False, 0, 1, -3, 1.5, "", "s", "=inputs.x", "=1 +", [], {}, [1], ["a", {"b": 1}], {"a": 1},
-        {"message": "m"}, 10 ** 20]
+        {"message": "m"}, 10 ** 20, BIG, -BIG, 1.0, 1e308, "a/b/c"]
+
+# numeric leaves: integral floats, non-integral, bounds of 64 bits, beyond the int<->str digit limit, look-alikes
+NUMBERS = [1.0, 0.0, -1.0, 2.5, 1e308, -1e308, 1e-9, 0, -1, 2 ** 31, 2 ** 63 - 1, 2 ** 63, 2 ** 64, -(2 ** 63) - 1,
+           10 ** 20, 10 ** 4299, BIG, -BIG, True, False, "1.0", "5", None]
+
+# apiVersion / kind strings: what kr8s' get_class / new_class split on
+API_STRINGS = ["a/b/c", "x/y/z/w", "a//b", "/", "//", "apps/v1", "example.com/v1", "v1", "Foo.example.com", "Foo.v2",
+               "Foo/v2", "a\u0000b", "", " ", "é/ü/ß", "a.b/c.d/e"]
 
 
 def paths(v, pre=()):
@@ -370,7 +454,7 @@ def mutate(kind: str, spec, r):
 def _mutate(kind: str, spec, r):
     s = copy.deepcopy(spec)
     op = r.choice(["none", "type", "type", "type", "delete", "delete", "oversize", "enum", "oneof", "extra",
-                   "junk-root", "two"])
+                   "junk-root", "two", "number", "number", "apistr"])
     if op == "none":
         return s, op
     if op == "two":
@@ -380,6 +464,21 @@ def _mutate(kind: str, spec, r):
     if op == "junk-root" or not isinstance(s, dict):
         return r.choice(JUNK), "junk-root"
     ps = list(paths(s))
+    if op == "number":
+        # a numeric leaf (delays, counts, static values) — or, failing that, any scalar leaf — gets another number
+        nums = [(p, v) for p, v in ps if isinstance(v, (int, float)) and not isinstance(v, bool)]
+        leaves = nums if nums and r.random() < 0.8 else [(p, v) for p, v in ps if p and not isinstance(v, (dict, list))]
+        if not leaves:
+            return s, "none"
+        p, _ = r.choice(leaves)
+        return set_at(s, p, r.choice(NUMBERS)), op
+    if op == "apistr":
+        cands = [(p, v) for p, v in ps if p and p[-1] in ("apiVersion", "kind", "apiGroup", "version", "plural")
+                 and isinstance(v, str)]
+        if not cands:
+            return s, "none"
+        p, _ = r.choice(cands)
+        return set_at(s, p, r.choice(API_STRINGS)), op
     if op == "type":
         p, old = r.choice(ps)
         new = r.choice([j for j in JUNK if type(j) is not type(old)] or JUNK)
@@ -458,6 +557,7 @@ def _mutate(kind: str, spec, r):
 
 SIDE = r'''
 import json, sys, jsonschema
+sys.set_int_max_str_digits(0)
 data = json.load(sys.stdin)
 vals = {k: jsonschema.Draft7Validator(s) for k, s in data["schemas"].items()}
 out = []
@@ -490,7 +590,7 @@ def crd_schemas() -> dict:
 
 def independent_verdicts(specs: list) -> list:
     """[[valid?, first error]] from the jsonschema package, run under python3-vt in a side process"""
-    payload = json.dumps({"schemas": crd_schemas(), "specs": specs})
+    payload = dumps_big({"schemas": crd_schemas(), "specs": specs})
     try:
         p = subprocess.run(["python3-vt", "-c", SIDE], input=payload, capture_output=True, text=True, timeout=900)
     except (FileNotFoundError, subprocess.TimeoutExpired) as e:
@@ -502,7 +602,7 @@ def independent_verdicts(specs: list) -> list:
 
 def jsonable(v) -> bool:
     try:
-        json.dumps(v)
+        dumps_big(v)
         return True
     except (TypeError, ValueError):
         return False
@@ -584,7 +684,7 @@ def _spec_batch(ck: Check, drv: LeanDriver, n: int, r, offset: int):
         ck.count(f"schema:{'valid' if verdict[0] else 'invalid' if verdict[0] is False else 'unknown'}->{res['r']}")
         ck.count(f"spec-kind:{kind}")
         if verdict[0] is False:
-            ck.nontriv(hash(json.dumps([kind, spec], sort_keys=True, default=str)))
+            ck.nontriv(hash(dumps_big([kind, spec], sort_keys=True, default=str)))
         bad = spec_oracle(verdict, res)
         if bad:
             def fails(c, kind=kind, via=via):
@@ -599,8 +699,8 @@ def _spec_batch(ck: Check, drv: LeanDriver, n: int, r, offset: int):
                 except common.Infra:
                     small = spec
             if len(ck.violations) < 200:
-                ck.violate({"kind": "spec", "resource": kind, "spec": small, "via_cache": via, "mutation": tag},
-                           f"{kind}: {what}")
+                ck.violate({"kind": "spec", "resource": kind, "spec": encode_case(small), "via_cache": via,
+                            "mutation": tag}, f"{kind}: {what}")
             else:
                 ck.count("further-violations")
         if verdict[0] is not None and res["r"] != "raised":
@@ -615,7 +715,7 @@ def _spec_batch(ck: Check, drv: LeanDriver, n: int, r, offset: int):
         if verdict[0] is False and len(ck.disagreements) <= 300:
             mine = {"trace": ["validate"] + ["compile"] * res["compile"] + ["lookup"] * res["lookup"], "result": res["r"]}
             if ans != mine:
-                ck.disagree({"kind": "spec", "resource": kind, "spec": spec}, ans, mine, "schema-gate-first")
+                ck.disagree({"kind": "spec", "resource": kind, "spec": encode_case(spec)}, ans, mine, "schema-gate-first")
 
 
 # --------------------------------------------------------------------------- corpus / replay
